@@ -757,8 +757,13 @@ def rule_Q1_Q2(ctx, rid1='Q1', rid2='Q2'):
             isinstance(n.ast.targets[0], ast.Name) and n.ast.targets[0].id == pname and
             isinstance(n.ast.value, ast.Subscript) and
             isinstance(n.ast.value.value, ast.Name) and n.ast.value.value.id == pname]
-    dep = [s for s in sels if _depends(cfg, s.id, s.ast.value.slice, is_multiplicity)]
-    ok = bool(dep) and any(cfg.dominates(s.id, cache.id) for s in dep)
+    # a selection is `p = p[mask]` before the cache update or `p[mask]` inside it
+    cands = [(s.id, s.ast.value.slice, s.ast) for s in sels]
+    cands += [(cache.id, x.slice, cache.ast) for x in ast.walk(cache.ast.value)
+              if isinstance(x, ast.Subscript) and isinstance(x.value, ast.Name) and
+              x.value.id == pname]
+    dep = [c for c in cands if _depends(cfg, c[0], c[1], is_multiplicity)]
+    ok = bool(dep) and any(cfg.dominates(c[0], cache.id) for c in dep)
     ctx.ob(rid1, 'Union.sample:acceptance-depends-on-multiplicity', ok, f.where(cache.ast),
            'the proposals that are cached were thinned by a mask that depends on their '
            'multiplicity over all members of self.bounds' if ok else
@@ -766,16 +771,16 @@ def rule_Q1_Q2(ctx, rid1='Q1', rid2='Q2'):
            'ellipsoids are over-represented')
     # the multiplicity is evaluated on the proposals being thinned (same value)
     if dep:
-        s = dep[0]
+        sid, _, sast = dep[0]
         mult_on = False
         for d in cfg.nodes:
             if d.kind == 'stmt' and isinstance(d.ast, ast.Assign) and \
                     is_multiplicity(d.ast.value):
                 arg = d.ast.value.args[0].elt.args[0]
                 if isinstance(arg, ast.Name) and arg.id == pname and \
-                        cfg.defs_at(d.id, pname) == cfg.defs_at(s.id, pname):
+                        cfg.defs_at(d.id, pname) == cfg.defs_at(sid, pname):
                     mult_on = True
-        ctx.ob(rid1, 'Union.sample:multiplicity-of-same-proposals', mult_on, f.where(s.ast),
+        ctx.ob(rid1, 'Union.sample:multiplicity-of-same-proposals', mult_on, f.where(sast),
                'the multiplicity is counted for the very proposals that are thinned')
     # Q2
     mults = [n for n in cfg.nodes if n.kind == 'stmt' and isinstance(n.ast, ast.Assign) and
